@@ -338,6 +338,34 @@ func runC07(r *Run) {
 			r.bad("C07.R5", "per-chain|matcher", "-", "at least 4 writing calls in the dogfood operator hooks", fmt.Sprintf("only %d found", nW))
 		}
 	}
+	// a key is released at once (its lookup deleted, or the whole removal completed) on the belief that it never
+	// validated. The only evidence the hooks consult is membership in the CURRENT validator set; a validator that
+	// was dropped at the last epoch end (jailed, outnumbered, below the minimum) and is active again for the
+	// operator module is not in it, although everything it signed is still inside the unbonding window.
+	for _, hn := range []string{"AfterOperatorKeyReplaced", "AfterOperatorKeyRemovalInitiated"} {
+		hv := w.View("x/dogfood/keeper", "OperatorHooksWrapper."+hn)
+		if hv == nil {
+			continue
+		}
+		for _, c := range hv.CallsNamed("DeleteOperatorAddressForChainIDAndConsAddr", "CompleteOperatorKeyRemovalForChainID") {
+			history := false
+			var seen []string
+			for _, f := range hv.FactsAt(c, false) {
+				o := hv.outcome(f)
+				if o == nil {
+					continue
+				}
+				seen = append(seen, o.Callee.Name())
+				switch o.Callee.Name() {
+				case "GetExocoreValidator", "GetOperatorPrevConsKeyForChainID":
+				default:
+					history = true
+				}
+			}
+			r.check(history, "C07.R5", "immediate-release|"+hn+"|"+hv.calleeName(c), hv.pos(c), "a key is released before the unbonding epochs only on evidence that it did not validate inside the unbonding window",
+				hn+" calls "+hv.calleeName(c)+" at "+hv.pos(c)+" on the evidence of "+strings.Join(uniq(seen), ", ")+" alone (membership in the current validator set): a validator dropped at the last epoch end and active again is not in the set, so its key becomes unresolvable at once although it validated within the unbonding window")
+		}
+	}
 	if hv := w.View("x/dogfood/keeper", "OperatorHooksWrapper.AfterOperatorKeyRemovalInitiated"); hv != nil {
 		// "validating" = the current key, or the key it replaced earlier in this epoch, is in the validator set:
 		// a boolean every definition of which is the found-result of GetExocoreValidator
